@@ -22,6 +22,8 @@ NOT_DECIDED = "bit-identity of the projected arrays (follows from R1 + the C01 l
 TRUSTED = ("CPython ast", "S1 layout", "assumption A1 (mesh variables of type d)")
 TECHNIQUE = "static analysis: polynomial byte-effect identities between sibling branches; finite-case folding of the selection logic"
 
+from . import loader_folds as lfold
+
 
 def r1(run, tree):
     run.rule("C13.R1", "skip = read, in bytes (mesh blocks, step_over, particle header)", "D1 + sibling agreement", "", floor=12)
@@ -32,12 +34,12 @@ def r1(run, tree):
 def r2(run, tree):
     run.rule("C13.R2", "selection normalisation", "D7", "", floor=12)
     io2.check_descriptor_to_variables(run, tree)
-    io2.check_select_normalisation(run, tree)
+    lfold.check_load(run, tree)
 
 
 def r3(run, tree):
-    run.rule("C13.R3", "inactive readers are inert", "path rule", "", floor=3)
-    io2.check_inactive_readers(run, tree)
+    run.rule("C13.R3", "inactive readers are inert (Loader.load fold: only initialised readers open files and see records)", "D7 fold + path rule", "", floor=3)
+    lfold.check_load(run, tree)
     from .loader_rules import check_reinitialisation
     check_reinitialisation(run, tree)
 
